@@ -226,6 +226,12 @@ def run_check(modname, tier, seed, limit=None, only_cls=None):
         print('   class=%s cases=%d first: %s' % (c, len(lst), detail[:300]))
         reported += 1
 
+    anchor_cov = {}
+    if not os.environ.get('TTMC_NO_COVERAGE') and not new_cls and not harness:
+        try:
+            anchor_cov = anchor_coverage(mod, prop, tier, seed, evaluations)
+        except Exception as e:       # the vacuity guard must never turn a verdict into an error
+            anchor_cov = {'error': repr(e)[:200]}
     wall = time.time() - t0
     bounds = mod.BOUNDS(tier) if hasattr(mod, 'BOUNDS') else {}
     cov = {
@@ -241,6 +247,7 @@ def run_check(modname, tier, seed, limit=None, only_cls=None):
         'distinct_outcomes': len(outcomes),
         'outcome_histogram_top': sorted(outcomes.items(), key=lambda kv: -kv[1])[:12],
         'counters': extra,
+        'anchor_line_coverage': anchor_cov,
         'known_findings_hit': {c: len(viol[c]) for c in known_hit},
         'new_violation_classes': {c: len(viol[c]) for c in new_cls},
         'workers': nproc,
@@ -272,6 +279,72 @@ COMMON_ASSUMPTIONS = [
     'Gaussian point); identities are polynomial in the core entries',
     'CPU only; torch dense kernels, LAPACK and the reference contraction in ttmc/ref.py are trusted',
 ]
+
+
+def anchor_coverage(mod, prop, tier, seed, total, budget_s=12.0, max_cases=400):
+    """Vacuity guard: line coverage of the functions the property is anchored in (properties.jsonl, anchors.mechanism),
+    measured with coverage.py on a strided sample of this run's own cases executed again in this process.  A lower bound
+    on what the full enumeration executed."""
+    import ast
+    import re
+    import coverage
+    repo = os.environ.get('TTMC_REPO', '/repo')
+    rec = None
+    with open(os.path.join(VERIF, 'properties.jsonl')) as f:
+        for line in f:
+            r = json.loads(line)
+            if r['id'] == prop:
+                rec = r
+    wanted = {}          # file -> set of function names
+    for m in rec['anchors']['mechanism']:
+        cur = None
+        for part in re.split(r'[,;]', m['where']):
+            part = part.strip()
+            mm = re.match(r'(torchtt/\S+\.py)', part)
+            if mm:
+                cur = mm.group(1)
+            for fn in re.findall(r'\(([A-Za-z_][A-Za-z_0-9\.]*)', part):
+                if cur:
+                    wanted.setdefault(cur, set()).add(fn.split('.')[-1])
+    if not wanted:
+        return {}
+    if hasattr(mod, 'init_worker'):
+        mod.init_worker()
+    cov = coverage.Coverage(data_file=None, include=[os.path.join(repo, 'torchtt', '*')])
+    stride = max(1, total // max_cases)
+    t0 = time.time()
+    n = 0
+    cov.start()
+    try:
+        for idx, case in enumerate(mod.cases(tier, seed)):
+            if idx % stride:
+                continue
+            try:
+                mod.run_case(case)
+            except Exception:
+                pass
+            n += 1
+            if time.time() - t0 > budget_s:
+                break
+    finally:
+        cov.stop()
+    out = {'_sample_cases': n, '_stride': stride}
+    for rel, names in sorted(wanted.items()):
+        path = os.path.join(repo, rel)
+        if not os.path.exists(path):
+            continue
+        try:
+            _, stmts, _, missing, _ = cov.analysis2(path)
+        except Exception:
+            stmts, missing = [], []
+        tree = ast.parse(open(path).read())
+        for node in ast.walk(tree):
+            if isinstance(node, (ast.FunctionDef,)) and node.name in names:
+                body = [l for l in stmts if node.lineno < l <= node.end_lineno]
+                if body:
+                    hit = [l for l in body if l not in set(missing)]
+                    out['%s:%s' % (rel, node.name)] = [len(hit), len(body)]
+    return out
 
 
 def replay(path, quiet=False):
